@@ -240,7 +240,7 @@ def run(cx):
             ob.require(t[0] == "agg" and is_new_pid(t[3][0]), f"add/event-id", f"add: event carries {show(t)}", b.path, b.loc(c.bb))
             if t[0] == "agg" and t[2].endswith("LostPeer"):
                 r = strip_identity(t[3][1])
-                ob.require(r[0] == "agg" and r[2].endswith("DisconnectReason::Requested"), "add/lost-reason",
+                ob.require(is_unit_variant(r, "DisconnectReason::Requested"), "add/lost-reason",
                            f"add: replaced connection reported with {show(r)}", b.path, b.loc(c.bb))
 
     with cx.ob("C04.2c", "R-PATHSEQ", "ActivePeersInner::remove: remove → close removed → LostPeer, or nothing") as ob:
